@@ -234,6 +234,10 @@ void run_case(const uint8_t* data, size_t size, vf::Case& c) {
     std::string v[8];
     for (int i = 0; i < 8; i++) v[i] = vf::pat::perturb(b, comps[i].instance);
     if (v[0].empty()) v[0] = "https";
+    // delimiters inside the value: "##x" / "??q" (a dictionary input loses exactly one of them,
+    // a URL string keeps the second one as part of the fragment / query)
+    if (b.chance(50)) v[7] = (b.coin() ? "##" : "#") + v[7];
+    if (b.chance(50)) v[6] = (b.coin() ? "??" : "?") + v[6];
     unsigned shape = b.below(4);
     std::string url = v[0] + "://";
     if (!v[1].empty() || !v[2].empty()) url += v[1] + (v[2].empty() ? "" : ":" + v[2]) + "@";
@@ -255,6 +259,11 @@ void run_case(const uint8_t* data, size_t size, vf::Case& c) {
       input = std::string_view(rel);
       basep = &base;
       desc = "\"" + vf::show(rel) + "\" base \"" + vf::show(base) + "\"";
+      if (b.chance(64)) {  // the same relative reference WITHOUT a base: it denotes no URL at all
+        basep = nullptr;
+        desc = "\"" + vf::show(rel) + "\" (relative, no base)";
+        VF_TAG("relative_input_without_base");
+      }
     } else {  // init dictionary
       ii.protocol = v[0]; ii.hostname = v[3]; ii.pathname = v[5].empty() || v[5][0] != '/' ? "/" + v[5] : v[5];
       if (!v[1].empty()) ii.username = v[1];
@@ -291,7 +300,7 @@ void run_case(const uint8_t* data, size_t size, vf::Case& c) {
         if (!std::holds_alternative<std::string_view>(r.inputs[0]) || std::get<std::string_view>(r.inputs[0]) != (shape == 2 ? std::string_view(rel) : std::string_view(url))) return c.fail(w + "result.inputs[0] does not echo the input string");
         if (basep && (!std::holds_alternative<std::string_view>(r.inputs[1]) || std::get<std::string_view>(r.inputs[1]) != base)) return c.fail(w + "result.inputs[1] does not echo the base URL");
         ada::result<ada::url_aggregator> bu = basep ? ada::parse<ada::url_aggregator>(base) : ada::result<ada::url_aggregator>(ada::url_aggregator{});
-        auto pu = basep ? ada::parse<ada::url_aggregator>(rel, &*bu) : ada::parse<ada::url_aggregator>(url);
+        auto pu = basep ? ada::parse<ada::url_aggregator>(rel, &*bu) : ada::parse<ada::url_aggregator>(shape == 2 ? rel : url);
         if (!pu) return c.fail(w + "exec() returned a result although the input does not parse as a URL");
         std::string e_proto(pu->get_protocol()); e_proto.pop_back();
         std::string e_search(pu->get_search()); if (!e_search.empty()) e_search = e_search.substr(1);
